@@ -6,6 +6,7 @@ import (
 	"fmt"
 	"strings"
 
+	netty "github.com/go-netty/go-netty"
 	"github.com/go-netty/go-netty/zz_verif/explore"
 	"github.com/go-netty/go-netty/zz_verif/vsched"
 )
@@ -16,10 +17,14 @@ type WParams struct {
 	Wrap    Wrap   // library buffering wrapper between channel and mock (zero: none)
 	Writers [][]EP // per writer thread: the entry point of each of its calls
 	Sizes   []int  // payload size per call in flattening order (missing = 3)
-	Bound   int
-	Tag     string
-	Cache   bool
-	Shards  int
+	// Prep (optional) scripts the freshly served channel's environment before the writers start (fault
+	// injection); Handlers (optional) replaces the default inbound handler.
+	Prep     func(e *Env)
+	Handlers func() []netty.Handler
+	Bound    int
+	Tag      string
+	Cache    bool
+	Shards   int
 }
 
 type WObs struct {
@@ -65,7 +70,14 @@ func WriteScenario(p WParams, check func(x *vsched.Exec, o *WObs) []explore.Find
 		Init:   func() any { return &WObs{} },
 		Body: func(v any) {
 			o := v.(*WObs)
-			o.Env = NewEnvWrap(p.Cfg, p.Wrap, nil)
+			var hs []netty.Handler
+			if p.Handlers != nil {
+				hs = p.Handlers()
+			}
+			o.Env = NewEnvWrap(p.Cfg, p.Wrap, nil, hs...)
+			if p.Prep != nil {
+				p.Prep(o.Env)
+			}
 			o.Idle0, _, _, o.PrivOK = ChanState(o.Env.Ch)
 			id := 1
 			for i, eps := range p.Writers {
